@@ -1,6 +1,12 @@
 // Simulated environment for yara (DESIGN.md §2.2).  yara's object code reaches
 // these through objcopy-redirected symbols; the harness itself keeps libc.
 #pragma once
+#ifdef VERIF_GCOV
+extern "C" void __gcov_dump(void);   // reach measurement build (tools/reach.sh): flush counters before _exit in forked children
+#define SIM_GCOV_DUMP() __gcov_dump()
+#else
+#define SIM_GCOV_DUMP() ((void) 0)
+#endif
 #include <stdint.h>
 #include <stddef.h>
 #include <string>
